@@ -242,6 +242,35 @@ func c20Pairs() [][2]int64 {
 	return out
 }
 
+// c20HangulPairs enumerates the pairs around the conjoining jamo blocks: every a in U+10FF..U+1113 with every b in
+// U+1160..U+117E, and syllables (first and last LV, LVT neighbours, block edges and just outside; thorough: every
+// LV syllable and its two neighbours) with every b in TBase-2 .. TBase+TCount+1.
+func c20HangulPairs(tier string) [][2]int64 {
+	var out [][2]int64
+	for a := int64(ucd.HangulLBase) - 1; a <= ucd.HangulLBase+ucd.HangulLCount; a++ {
+		for b := int64(ucd.HangulVBase) - 1; b < ucd.HangulVBase+ucd.HangulVCount+9; b++ {
+			out = append(out, [2]int64{a, b})
+		}
+	}
+	var as []int64
+	S, T, N := int64(ucd.HangulSBase), int64(ucd.HangulTCount), int64(ucd.HangulSCount)
+	if tier == "quick" {
+		as = []int64{S - 2, S - 1, S, S + 1, S + T - 1, S + T, S + T + 1, S + 2*T, S + 588, S + 589, S + N/2/T*T, S + N/2/T*T + 5,
+			S + N - T - 1, S + N - T, S + N - T + 1, S + N - 1, S + N, S + N + 1, S + N + T - N%T, ucd.HangulLBase, ucd.HangulVBase, ucd.HangulTBase + 1}
+	} else {
+		as = []int64{S - 2, S - 1, S + N, S + N + 1, S + N + T, ucd.HangulLBase, ucd.HangulVBase, ucd.HangulTBase + 1}
+		for a := S; a < S+N; a += T {
+			as = append(as, a, a+1, a+T-1)
+		}
+	}
+	for _, a := range as {
+		for b := int64(ucd.HangulTBase) - 2; b < ucd.HangulTBase+ucd.HangulTCount+2; b++ {
+			out = append(out, [2]int64{a, b})
+		}
+	}
+	return out
+}
+
 func c20RandomCP(r *vh.Rand) int64 {
 	switch r.Intn(10) {
 	case 0:
@@ -347,6 +376,11 @@ func c20Gen(r *vh.Rand, tier string, n int, emit func(any)) {
 			emit(c20Input{K: "sweep", Lo: lo, Hi: lo + 0x8000})
 		}
 	}
+	// the whole algorithmic Hangul scope, on every run: (L range +- 1) x (V range, 8 past its end, 1 before), and
+	// LV / LVT / non-syllables x (T range +- 2)
+	for _, p := range c20HangulPairs(tier) {
+		emit(c20Input{K: "pair", A: p[0], B: p[1]})
+	}
 	// pairs
 	pairs := c20Pairs()
 	np := n / 6
@@ -428,7 +462,8 @@ func c20Run(o *vh.Out, inAny any) {
 			ha, hb, hok := ucd.VerifC20DecomposeHangul(r)
 			sc := language.LookupScript(r)
 			term = vh.App("CCp", vh.Z(int64(r)), vh.Z(gc), vh.Z(cc), vh.Z(lb), vh.Z(gb), vh.Z(wb), c20ZB(int64(m), mok), vh.Z(int64(m2)),
-				c20ZZB(int64(a), int64(b), dok), c20ZB(int64(c), cok), c20ZZB(int64(ha), int64(hb), hok), vh.Z(int64(uint32(sc))))
+				c20ZZB(int64(a), int64(b), dok), c20ZB(int64(c), cok), c20ZZB(int64(ha), int64(hb), hok), vh.Z(int64(uint32(sc))),
+				vh.Tuple(vh.Zi(int(ucd.LookupCombiningClass(a))), vh.Zi(int(ucd.LookupCombiningClass(b)))))
 			if gc >= 0 {
 				key = term
 			}
@@ -459,12 +494,13 @@ func c20Run(o *vh.Out, inAny any) {
 		case "dir":
 			d := di.Direction(uint8(in.D))
 			sw := d.SwitchAxis()
+			sw2 := sw.SwitchAxis()
 			sp0, sp1, ss0, ss1 := d, d, d, d
 			sp0.SetProgression(di.FromTopLeft)
 			sp1.SetProgression(di.TowardTopLeft)
 			ss0.SetSideways(false)
 			ss1.SetSideways(true)
-			term = vh.App("CDir", c20Dval(d), vh.Bool(d.Axis() == di.Vertical), vh.Zi(int(d.Harfbuzz())), c20Dval(sw), c20Dval(sp0), c20Dval(sp1), c20Dval(ss0), c20Dval(ss1))
+			term = vh.App("CDir", c20Dval(d), vh.Bool(d.Axis() == di.Vertical), vh.Zi(int(d.Harfbuzz())), c20Dval(sw), c20Dval(sp0), c20Dval(sp1), c20Dval(ss0), c20Dval(ss1), c20Dval(sw2))
 			key = term
 		case "lang":
 			l := language.NewLanguage(string(in.S))
